@@ -30,6 +30,8 @@ enum Error {
     DeleteWithIncompleteBackup { band_id: BandId },
     GarbageCollectionLockHeld,
     GarbageCollectionLockHeldDuringBackup,
+    // returned by Band::open when the band directory has no BANDHEAD (a band whose creation or deletion was interrupted)
+    BandHeadMissing { band_id: BandId },
     Other,
 }
 type Result<T> = std::result::Result<T, Error>;
@@ -114,6 +116,10 @@ impl Archive {
     spec fn listing_fault(&self) -> bool { self.transport.list_fault() }
     uninterp spec fn probe_fault(&self, id: BandId) -> bool;
     uninterp spec fn open_failed(&self, id: BandId) -> bool;
+    // ... and it failed for a reason OTHER than a missing head (undecodable head, unsupported format, storage fault)
+    uninterp spec fn open_fault(&self, id: BandId) -> bool;
+    // ... or it failed BECAUSE the band directory has no BANDHEAD
+    uninterp spec fn head_missing(&self, id: BandId) -> bool;
 }
 
 // R7 (lifted verbatim from `Archive::list_band_ids`; `BLOCK_DIR` is the static "d"):
@@ -183,8 +189,10 @@ impl Band {
     async fn open(archive: &Archive, band_id: BandId) -> (r: Result<Band>)
         ensures
             r matches Ok(b) ==> b.sid() == band_id && b.home() == *archive,
-            r matches Err(e) ==> e is Other,
+            r matches Err(e) ==> e is Other || e is BandHeadMissing,
             r is Err ==> archive.open_failed(band_id),
+            r matches Err(e) ==> (e is Other ==> archive.open_fault(band_id)),
+            r matches Err(e) ==> (e is BandHeadMissing ==> archive.head_missing(band_id)),
     { unimplemented!() }
 
     #[verifier::external_body]
